@@ -355,12 +355,13 @@ package route
 
 //@ func addLeaf
 //@   props C08 C01
-//@   loop 1 invariant[C01] leaves == nodeOf(t).leaves && leaf != nil && (forall k int :: 0 <= k && k < i ==> leafStyle(leaves[k]) <= leafStyle(leaf))
-//@   loop 1 invariant[C01] forall k int :: 0 <= k && k < len(leaves) ==> nodeOf(t).snapLeaves[k] == leaves[k]
+//@   loop 1 invariant[C01,C08] leaves == nodeOf(t).leaves && leaf != nil && (forall k int :: 0 <= k && k < i ==> leafStyle(leaves[k]) <= leafStyle(leaf))
+//@   loop 1 invariant[C01,C08] forall k int :: 0 <= k && k < len(leaves) ==> nodeOf(t).snapLeaves[k] == leaves[k]
 //@   ghost after getLeaves#1: nodeOf(t).snapLeaves = seqof(nodeOf(t).leaves)
 // stable insertion: the new list is old[:i] ++ [leaf] ++ old[i:], every entry before i has a rank <= the new leaf's,
 // the entry at i (if any) a strictly larger one: rank order first, registration order within a rank
-//@   assert[C01] before setLeaves#0: len(leaves) == len(nodeOf(t).leaves) + 1 && leaves[i] == leaf &&
+// (C08: nothing registered before is lost - in particular not the short form just added to the same root tree)
+//@   assert[C01,C08] before setLeaves#0: len(leaves) == len(nodeOf(t).leaves) + 1 && leaves[i] == leaf &&
 //@       (forall k int :: 0 <= k && k < i ==> leaves[k] == nodeOf(t).snapLeaves[k]) && (forall k int :: i < k && k < len(leaves) ==> leaves[k] == nodeOf(t).snapLeaves[k - 1])
 //@   assert[C01] before setLeaves#0: (forall k int :: 0 <= k && k < i ==> leafStyle(nodeOf(t).snapLeaves[k]) <= leafStyle(leaf)) &&
 //@       (i < len(nodeOf(t).leaves) ==> leafStyle(leaf) < leafStyle(nodeOf(t).snapLeaves[i]))
@@ -374,10 +375,10 @@ package route
 
 //@ func addSubtree
 //@   props C08 C01
-//@   loop 1 invariant[C01] subtrees == nodeOf(t).subtrees && isTreeChild(subtree) && (forall k int :: 0 <= k && k < i ==> style(subtrees[k]) <= style(subtree))
-//@   loop 1 invariant[C01] forall k int :: 0 <= k && k < len(subtrees) ==> nodeOf(t).snapTrees[k] == subtrees[k]
+//@   loop 1 invariant[C01,C08] subtrees == nodeOf(t).subtrees && isTreeChild(subtree) && (forall k int :: 0 <= k && k < i ==> style(subtrees[k]) <= style(subtree))
+//@   loop 1 invariant[C01,C08] forall k int :: 0 <= k && k < len(subtrees) ==> nodeOf(t).snapTrees[k] == subtrees[k]
 //@   ghost after getSubtrees#1: nodeOf(t).snapTrees = seqof(nodeOf(t).subtrees)
-//@   assert[C01] before setSubtrees#0: len(subtrees) == len(nodeOf(t).subtrees) + 1 && subtrees[i] == subtree &&
+//@   assert[C01,C08] before setSubtrees#0: len(subtrees) == len(nodeOf(t).subtrees) + 1 && subtrees[i] == subtree &&
 //@       (forall k int :: 0 <= k && k < i ==> subtrees[k] == nodeOf(t).snapTrees[k]) && (forall k int :: i < k && k < len(subtrees) ==> subtrees[k] == nodeOf(t).snapTrees[k - 1])
 //@   assert[C01] before setSubtrees#0: (forall k int :: 0 <= k && k < i ==> style(nodeOf(t).snapTrees[k]) <= style(subtree)) &&
 //@       (i < len(nodeOf(t).subtrees) ==> style(subtree) < style(nodeOf(t).snapTrees[i]))
